@@ -11,7 +11,9 @@ From Y2 Require Import Gen.GenFwdDeclConsts Model.FwdDecl Spec.FwdDeclSpec Proof
 Import ListNotations.
 
 (* ------------------------------------------------------------------------------------------------------------ *)
-(* Translated constants (first: when the source changes, the first obligation that fails names the cause). *)
+(* Translated constants (first: when the source changes, the first obligation that fails names the cause).
+   These three are computations over Gen/GenFwdDeclConsts.v, proved here so that Proofs/ does not depend on the
+   values of the translated constants. *)
 
 (* the regex in the source is the one the hand-written scanner `next_match` implements *)
 Theorem C19_regex_unchanged : regex_is_expected = true /\ name_regex = expected_regex.
@@ -68,11 +70,7 @@ Theorem C19_writer_each_once :
     exists out, write_forward_declarations (map qname_text qs) = Some out /\
                 exists declared, parse out = Some declared /\ NoDup declared /\
                                  forall q, In q declared <-> In q qs.
-Proof.
-  intros qs Hv Hnd. destruct (writer_correct qs Hv) as (out & Hw & Hp).
-  exists out. split; [exact Hw|]. exists qs. split; [exact Hp|]. split; [|tauto].
-  exact (NoDup_map_inv _ _ Hnd).
-Qed.
+Proof. exact writer_each_once. Qed.
 Print Assumptions C19_writer_each_once.
 
 (* non-vacuity: prefixes colliding at character level, a class named like a namespace, unsorted input *)
